@@ -7,6 +7,7 @@ CONSTANTS
     Async = FALSE
     AnyOrder = TRUE
     UnmountFaults = TRUE
+    InitCommitted = FALSE
     SurviveModes = {TRUE, FALSE}
     LabelOnlyIfMounted = TRUE
     CheckWholeChain = TRUE
